@@ -561,7 +561,7 @@ def make_program(case):
     """-> (prog, attempts).  The program is the stored literal one, or is generated from the sub-seed; programs
     the model finds invalid or ambiguous are regenerated (bounded), so that almost every case is conclusive."""
     if case.get("prog") is not None:
-        return case["prog"], 0
+        return case["prog"], 0, {}
     last = None
     for attempt in range(40):
         rng = random.Random("%s:%d" % (case["subseed"], attempt))
@@ -570,19 +570,22 @@ def make_program(case):
         last = prog
         try:
             mg.reference(prog)
-            return prog, attempt
+            return prog, attempt, flags
         except (mg.Invalid, mg.Ambiguous, RecursionError):
             continue
-    return last, 40
+    return last, 40, {}
 
 
 def run_case(ctx, case):
     res = core.CaseResult()
     cid = case.get("id", "x")
     d = ctx.casedir(cid)
-    prog, attempts = make_program(case)
+    prog, attempts, flags = make_program(case)
     res.count("programs", 1)
     res.count("regenerated", attempts)
+    for f, on in flags.items():
+        if on:
+            res.count("flag:" + f, 1)
     try:
         mtoks, feats = mg.reference(prog)
     except (mg.Invalid, mg.Ambiguous, RecursionError) as ex:
@@ -721,16 +724,12 @@ def main(chk):
         cases.append({"id": i, "subseed": "%d:%d" % (base, i), "forced": forced, "want_sample": i < 5})
     chk.run_cases(__name__, cases)
     feats = {k[5:]: v for k, v in chk.counters.items() if k.startswith("feat:")}
+    flags = {k[5:]: v for k, v in chk.counters.items() if k.startswith("flag:")}
     for k in list(chk.counters):
-        if k.startswith("feat:"):
+        if k.startswith("feat:") or k.startswith("flag:"):
             del chk.counters[k]
-    progs = max(1, chk.evaluations - chk.inconclusive)
-    chk.extra["programs_per_feature"] = dict(sorted(feats.items()))
-    chk.extra["features_below_one_eighth"] = sorted(f for f in FEATURE_FLOOR if feats.get(f, 0) * 8 < progs)
+    progs = max(1, chk.counters.get("programs", 0))
+    chk.extra["programs_with_generator_flag_on"] = dict(sorted(flags.items()))
+    chk.extra["generator_flags_below_one_eighth"] = sorted(f for f in mg.FLAGS if flags.get(f, 0) * 8 < progs)
+    chk.extra["programs_exercising_feature"] = dict(sorted(feats.items()))
     chk.min_conclusive = n // 2
-
-
-# features that DESIGN Appendix D wants exercised in at least 1/8 of the conclusive programs
-FEATURE_FLOOR = ["obj", "fn1", "variadic", "va-args", "va-opt-taken", "va-opt-skipped", "stringify", "paste",
-                 "rescan-nested", "call-multiline", "arg-empty", "arg-paren-comma", "arg-nested-call",
-                 "self-ref-suppressed", "use-cmdline"]
